@@ -376,7 +376,7 @@ func main() {
 		}
 		var vers []ver
 		cur := map[string][]byte{}
-		for b := 0; b < 3+r.Intn(3); b++ {
+		commitRound := func() {
 			for i := 0; i < 2+r.Intn(20); i++ {
 				k := lib.JoinLenPrefix([]byte{1}, []byte(fmt.Sprintf("a-%03d", r.Intn(60))))
 				if _, ok := cur[string(k)]; ok && r.Chance(35) {
@@ -397,6 +397,26 @@ func main() {
 				snap[k] = v
 			}
 			vers = append(vers, ver{root, snap})
+		}
+		for b := 0; b < 3+r.Intn(3); b++ {
+			commitRound()
+		}
+		// sometimes the store is rolled back to an earlier height (the operator's rollback command) and the chain goes on from there:
+		// the heights committed AFTER the rollback must prove exactly their own state - nothing of the abandoned heights
+		if r.Chance(40) {
+			target := 1 + r.Intn(len(vers)-1)
+			if err := s.Rollback(uint64(target)); err != nil {
+				panic(err)
+			}
+			vers = vers[:target]
+			cur = map[string][]byte{}
+			for k, v := range vers[target-1].present {
+				cur[k] = v
+			}
+			for b := 0; b < 1+r.Intn(3); b++ {
+				commitRound()
+			}
+			st.ByKind["store-rolled-back-then-continued"]++
 		}
 		// sometimes everything committed so far has left the memtable (a flush, as on every restart or when the memtable fills up):
 		// reads at a version then go through the sstable block filters
